@@ -38,6 +38,7 @@ Definition next_state (idle max : Z) (sig cmd : estate) (cmd_rpm : Z) (a : age)
       if expired a then mk_engine idle max NoRequest idle
       else mk_engine idle max Starting idle
   | NoRequest, _ => mk_engine idle max NoRequest idle
+  | Starting, NoRequest | Starting, Stopping => mk_engine idle max Stopping idle   (* since fix 00d4665: a stop request aborts cranking *)
   | Starting, _ =>
       if expired a then mk_engine idle max NoRequest idle
       else mk_engine idle max Starting idle
